@@ -42,6 +42,7 @@ type Profile struct {
 	Crashes     bool     // blocks carry restart points (C01)
 	GasSweep    bool     // some txs get a gas limit that runs out at an ante / message boundary
 	MultiPct    int      // percent of txs with several messages (default 10)
+	ManyDenoms  bool     // genesis balances in additional denominations sorting before, around and after the native one
 	PRetry      int      // percent of record/purchase operations that retry an earlier rolled-back attempt (same party, same identifier)
 	PForward    int      // percent of follow-up messages after a registration that use that registration (forward reference)
 	PFeePayer   int      // percent of txs with an explicit co-signing fee payer (AuthInfo.Fee.Payer)
@@ -150,6 +151,13 @@ func GenGenesis(t *rapid.T, p *Profile) lab.GenesisCfg {
 			a.Kind = pick(t, []int{lab.KindContVesting, lab.KindDelayedVesting, lab.KindPermLocked}, "vestKind")
 			a.VestAmt = pick(t, []string{"1000000000000", "900000000000000", "50000"}, "vestAmt")
 			a.VestEnd = pick(t, []int64{50, 1000, 100000000}, "vestEnd")
+		}
+		if p.ManyDenoms {
+			for _, d := range []string{"aaa", "mmm", "nun", "nunda", "oz", "stakf", "uatom", "zz", "ibc/27394FB092D2ECCD56123C74F36E4C1F926001CEADA9CA97EA622B25F41E5EB2"} {
+				if oneIn(t, 6, "xd"+d) {
+					a.Bal[d] = pick(t, []string{"1", "1000", "123456789012345678901234567890"}, "xdAmt")
+				}
+			}
 		}
 		accts[i] = a
 	}
